@@ -4,7 +4,8 @@
    LineJoin::start / end / from_points, i.e. Line::extents).  Driving the generated `next` from the generated `new` until its
    first None (src_tsi_drive / src_ctsi_drive, Proofs/SrcSegIter.v) yields exactly the list of segments of the model
    (Join.thick_segment_iter / closed_thick_segment_iter), whenever the model yields one and the fuel F covers the extents of
-   the lines between the points (fuel_ok).  Statements only (proofs: Proofs/SrcSegIter.v). *)
+   the lines between the points (fuel_ok).  ClosedThickSegmentIter::new can also panic (`points[1]` on a one-point slice,
+   `last().unwrap()`): its None is fuel exhausted or that panic; the one-point case is None for every fuel.  Statements only (proofs: Proofs/SrcSegIter.v). *)
 From EG Require Import Base.Prelude Base.Casts Model.Geometry Model.Style Model.Line Model.Thickline Model.Join.
 From EG Require Import Gen.SrcGeometry Gen.SrcStyle Gen.SrcCircle Gen.SrcJoin Gen.SrcLine Gen.SrcThick Gen.SrcLineJoin Gen.SrcLineJoin2 Gen.SrcSegIter.
 From EG Require Import Proofs.SrcLineJoin2 Proofs.SrcSegIter.
@@ -19,6 +20,11 @@ Theorem C07_src_closed_thick_segment_iter_run : forall F pts w so segs,
   closed_thick_segment_iter pts w so = Some segs -> fuel_ok pts w F ->
   exists s0 n, (n <= length pts + 4)%nat /\ src_ClosedThickSegmentIter_new F pts w so = Some s0 /\ src_ctsi_drive F n s0 = Some segs.
 Proof. exact src_closed_thick_segment_iter_run. Qed.
+
+(* the panic of `points[1]` on a one-point slice (the model's None): None whatever the fuel *)
+Theorem C07_src_closed_new_single_point_panics : forall F a w so,
+  src_ClosedThickSegmentIter_new F [a] w so = None /\ closed_thick_segment_iter [a] w so = None.
+Proof. intros F a w so. split; reflexivity. Qed.
 
 Example C07_src_segiter_nonvacuous :
   (exists s0, src_ThickSegmentIter_new 50 [P 0 0; P 10 0; P 10 10] 3 SOLeft = Some s0 /\
